@@ -468,9 +468,11 @@ impl<'a> GeneratorState<'a> {
             Expr::BinOp { lhs, op, rhs } => match op {
                 Operation::Assign => {
                     let left = self.generate_expr(lhs, pos, high_byte, high_byte)?;
+                    // Y saved for a subscript of the left hand side indexes the store of the high byte as well
+                    let y_saved_for_left = self.saved_y;
                     let right = self.generate_expr(rhs, pos, high_byte, high_byte)?;
                     let ret = self.generate_assign(&left, &right, pos, high_byte);
-                    if self.saved_y {
+                    if self.saved_y && !y_saved_for_left {
                         self.asm_restore_y();
                         self.saved_y = false;
                         self.tmp_in_use = false;
@@ -500,6 +502,13 @@ impl<'a> GeneratorState<'a> {
                             }
                             _ => (),
                         };
+                    }
+                    if self.saved_y {
+                        self.asm_restore_y();
+                        self.saved_y = false;
+                        self.tmp_in_use = false;
+                        self.flags = FlagsState::Y;
+                        self.carry_flag_ok = false;
                     }
                     ret
                 }
